@@ -147,7 +147,7 @@ def build_argv(rng, rec, tmp, idx, allow_files=True, in_process=True):
     if kind in ("raw", "raw_noext", "stdin") or rng.random() < 0.3:
         r_, c_, w_ = rate, channels, width
         if kind.startswith("wav") and rng.random() < 0.5:
-            r_, c_, w_ = 44100, 1, 2  # deliberately different from the header: must be ignored
+            r_, c_, w_ = rng.choice(((44100, 1, 2), (12345, 7, 3), (8000, 2, 3), (1, 1, 4)))  # deliberately different from the header (even impossible for raw audio): must be ignored
         if r_ != DEFAULTS["r"] or rng.random() < 0.5:
             argv += [rng.choice(("-r", "--rate")), str(r_)]
         if c_ != DEFAULTS["c"] or rng.random() < 0.5:
@@ -210,7 +210,9 @@ def build_argv(rng, rec, tmp, idx, allow_files=True, in_process=True):
     meta["time_format"] = tf or "%S"
     pf = rng.choice((None, None, "{id}#{start}#{end}#{duration}", "[{id}]: {start} -> {end}", "{start} {end}", "{id}\\t{duration}",
                      '{{"id": {id}, "start": "{start}", "end": "{end}"}}', "{id} {start} {end} @{timestamp:<30}|", "{timestamp!s} # {id} {duration}",
-                     "d\u00e9but {id} \u2192 {start} \u00e0 {end}", "\u4e8b\u4ef6{id} \u2014 {duration}"))
+                     "d\u00e9but {id} \u2192 {start} \u00e0 {end}", "\u4e8b\u4ef6{id} \u2014 {duration}",
+                     # an escape sequence AND non-ASCII text in one template; a template that begins with "@"
+                     "{id}\\t{start} \u2192 {end}", "n\u00b0{id}\\t{duration} s", "@{id} {start} {end}", "@det {id}: {duration}"))
     if pf is not None:
         argv += ["--printf", pf]
     meta["printf"] = pf or "{id} {start} {end}"
